@@ -497,7 +497,11 @@ class WsgiApplication(HttpBase):
                     logger.exception(e)
                     e = Fault('Server', get_fault_string_from_exception(e))
 
+                # method_return_object has already been fired for the generator:
+                # tell the listeners that the call ends in a fault after all.
                 p_ctx.out_error = e
+                p_ctx.fire_event('method_exception_object')
+
                 return self.handle_error(p_ctx, others, p_ctx.out_error,
                                                                  start_response)
 
